@@ -221,7 +221,11 @@ def run(tier, t0):
     twins(res, prog, cu)
     names_and_spellings(res, prog, cu)
     windows(res, prog, cu)
+    # C04.7 the x86 FPO technique as a formula table (shared with C07.6): the leftover-return-address heuristic and
+    # the saved-$ebp slot are part of "the walker recovers the caller" for STACK WIN type 0 frames
+    from . import fpo
+    fpo.fpo_formulas(res, prog, 'C04.7')
     res.assumptions += ['that frames, registers and names come out right for a given stack is behavioural: a fault inside a technique\'s arithmetic is invisible to these rules']
-    return harness.finish(res, tier, t0, distinct=6, explanation=(
+    return harness.finish(res, tier, t0, distinct=7, explanation=(
         'Narrow claim: necessary structural conditions of correct walking. Technique priority and retry discipline in each architecture, technique labels, MIR-level equality of the arm64 / arm64_old twins modulo the context type, '
         'existence and canonical spelling of every register name the unwinders insert into or test against validity sets (two alias defects found this way were repaired in /repo), and the documented scan windows read from MIR constants.'))
